@@ -17,7 +17,12 @@
  *    the list is left as it is;  DL_APPEND is verified as written;
  *  - snprintf(dst,n,"%s",src): string copy with the ISO result (or "too long");
  *  - path.c (path_filename, path_copy, path_dirname, path_remove_trailing): the REAL code is
- *    included (strings are concrete or short, CBMC's strlen/strrchr/strcmp models). */
+ *    included (strings are concrete or short, CBMC's strlen/strrchr/strcmp models); only the
+ *    trace_load group (-DG1_PATH_MODEL) replaces path_dirname / path_remove_trailing by
+ *    constant-index models, which group g1_path_models compares with the real functions.
+ * Measured: path_dirname on a PATH_MAX buffer with symbolic-index writes costs 8 M variables
+ * per call; the groups with the real path.c run with --max-field-sensitivity-array-size 4100
+ * on concrete path texts, so every index is a constant. */
 #include "prelude.h"
 #include <ftw.h>
 #include "utlist.h"
@@ -319,13 +324,9 @@ static void g1_cb_case(int c, int n0)   /* c and n0 are constants at every call:
 }
 void h_cb_nftw(void)
 {
-#ifdef G1_ONE
-	g1_cb_case(G1_ONE, 1);
-#else
 	g1_cb_case(0, 0); g1_cb_case(1, 0); g1_cb_case(2, 1); g1_cb_case(3, 1);
 	g1_cb_case(4, 0); g1_cb_case(5, 0); g1_cb_case(6, 1); g1_cb_case(7, 1);
 	g1_cb_case(0, 1); g1_cb_case(5, 1);
-#endif
 }
 #endif
 
